@@ -34,6 +34,8 @@ SHAPES = ["none", "args", "kwargs", "both"]
 TOPICS = ["com.t.a", "com.t.b"]
 MODES = ["plain", "det", "arg"]
 NEVER_HELD = 9999
+REG_ONLY = 4242        # an id the session holds as a REGISTRATION only (callee variant)
+_REG = False           # callee variant: the session also holds two registrations
 
 
 def main(ctx):
@@ -49,6 +51,11 @@ def main(ctx):
         for s in seconds:
             jobs.append({"first": f, "second": s, "depth": depth, "root": f == ["sub", 0, "plain"] and s is None,
                          "event_last_only": False})
+    # callee variant: the same session holds registrations whose ids collide with subscription ids
+    f = ["sub", 0, "plain"]
+    for s in [None, ["subd", 3, "fresh"], ["suberr", 3], ["sub", 0, "plain"], ["sub", 1, "det"]]:
+        jobs.append({"first": f, "second": s, "depth": depth - 2, "root": s is None,
+                     "event_last_only": False, "reg": True})
     for fw in ("tx", "aio"):
         ctx.pmap({"fw": fw, "nvx": "1"}, "props.c11:job", jobs, chunksize=1)
     c = ctx.counters
@@ -65,7 +72,8 @@ def main(ctx):
               "script:unsub-earlier", "script:unsub-later", "script:unsub-other-id",
               "unsub_inside_sends_unsubscribe", "handler_with_details_before_plain",
               "decorated_handler_invoked", "user_error_reported", "protocol_error_raised",
-              "shape:none", "shape:args", "shape:kwargs", "shape:both"):
+              "shape:none", "shape:args", "shape:kwargs", "shape:both",
+              "unsub_in_subscribe_callback", "callee_variant_transitions"):
         ctx.require(n)
 
 
@@ -92,6 +100,24 @@ class World:
         self.seed = seed
         self.l1 = H.L1(observers=False).join()
         self.model = R.SubscriptionModel()
+        self.reg = _REG
+        self.setup_problem = None
+        if self.reg:
+            # the session is a callee, too: registration ids live in their own id space, so the
+            # router may hand out 1 (= the first subscription id used here) and REG_ONLY
+            from autobahn.wamp import message as M
+            for proc, regid in (("com.c11.proc1", 1), ("com.c11.proc2", REG_ONLY)):
+                rq = self.model.ids.next()
+                r = self.l1.api(self.l1.session.register, lambda *a_, **k_: None, proc)
+                self.l1.settle()
+                if r[0] != "ok":
+                    raise RuntimeError("harness: register failed: %r" % (r,))
+                self.l1.track("reg:%s" % proc, r[1])
+                exc = self.l1.deliver(M.Registered(rq, regid))
+                self.l1.settle()
+                if exc is not None or self.l1.fstate("reg:%s" % proc)[0] != "ok":
+                    self.setup_problem = "REGISTERED(%d) on a session without subscriptions: %r %r" % (
+                        regid, exc, self.l1.fbrief("reg:%s" % proc))
         self.hmode = []         # hkey -> mode
         self.htopic = []        # hkey -> topic index
         self.hobj = []          # hkey -> decorated object or None
@@ -152,7 +178,8 @@ class World:
         snap = {
             "sreq": sorted(s._subscribe_reqs.keys()), "ureq": sorted(s._unsubscribe_reqs.keys()),
             "oreq": [sorted(getattr(s, "_%s_reqs" % k).keys()) for k in ("call", "publish", "register", "unregister")],
-            "subs": {str(k): [(x.handler.details_arg, x.active, x.topic, fnkey.get(id(x), -1)) for x in v]
+            "subs": {str(k): ([(x.handler.details_arg, x.active, x.topic, fnkey.get(id(x), -1)) for x in v]
+                              if isinstance(v, list) else "<%s in the subscription table>" % type(v).__name__)
                      for k, v in s._subscriptions.items()},
             "sid": s._session_id, "notr": s._transport is None, "nextid": s._request_id_gen._next,
             "tcalls": list(self.l1.transport.calls),
@@ -184,6 +211,12 @@ class World:
                         opts.append(sid)
                 for o in opts:
                     sc.append(["subd", rid, o])
+                    if o != "fresh" and self.hobj[hkey] is None and m.state.get(o) != "ambiguous":
+                        # the application unsubscribes an older handler of the same subscription
+                        # from the callback of this subscribe() (Twisted: runs inside SUBSCRIBED)
+                        for j in m.table.get(o, []):
+                            if j in self.subobj:
+                                sc.append(["subd", rid, o, j])
                 sc.append(["suberr", rid])
             for hkey in sorted(m.where):
                 if m.state.get(m.where[hkey]) != "ambiguous":
@@ -192,7 +225,7 @@ class World:
                 sc.append(["unsubd", rid])
                 sc.append(["unsuberr", rid])
         if with_events:
-            for sid in self.ids + [NEVER_HELD]:
+            for sid in self.ids + [NEVER_HELD] + ([REG_ONLY] if self.reg else []):
                 attached = list(m.table.get(sid, []))
                 for sh in SHAPES:
                     nc.append(["event", sid, sh, None])
@@ -293,7 +326,8 @@ class World:
 
     def _ev_subd(self, ev, check, stats):
         from autobahn.wamp import message as M
-        _, rid, which = ev
+        _, rid, which = ev[:3]
+        j = ev[3] if len(ev) > 3 else None
         l1, m = self.l1, self.model
         if which == "fresh":
             self.fresh_ids += 1
@@ -307,7 +341,30 @@ class World:
                 stats["subscribed_held_id"] += 1
         v = m.subscribed(rid, sid)
         hkey = v["hkey"]
+        inner = []
+        wire2 = None
+        if j is not None:
+            # reference: the new handler is attached, THEN the application's callback unsubscribes j
+            rid2, wire2 = m.unsubscribe(j)
+            if stats is not None:
+                stats["unsub_in_subscribe_callback"] += 1
+
+            def cb(_r):
+                n0 = len(l1.transport.sent)
+                r = l1.api(self.subobj[j].unsubscribe)
+                label = "unsub#%d" % self.nunsub
+                self.nunsub += 1
+                if r[0] == "ok" and r[1] is not None:
+                    l1.track(label, r[1])
+                inner.append((r, l1.wire(n0), label))
+                return None
+            fut = l1.futs["sub#%d" % hkey]
+            if l1.fw == "tx":
+                fut.addBoth(cb)
+            else:
+                fut.add_done_callback(cb)
         exc = l1.deliver(M.Subscribed(rid, sid))
+        l1.settle()
         # locate the Subscription object of this handler
         sub = None
         lst = l1.session._subscriptions.get(sid) or []
@@ -333,6 +390,13 @@ class World:
                 if getattr(sub, "id", None) != sid or sub.topic != v["topic"] or not sub.active:
                     self.bad("subscription-content", "subscribed", "expected id=%r topic=%r active, got %s" % (
                         sid, v["topic"], sub))
+            if j is not None:
+                if len(inner) != 1:
+                    self.bad("subscribe-callback", "subscribed", "callback of subscribe() ran %d times" % len(inner))
+                else:
+                    self._check_unsub(inner[0][0], wire2, inner[0][1], inner[0][2],
+                                      "unsubscribe-in-subscribe-callback")
+            lst = l1.session._subscriptions.get(sid) or []
             got = [self._hk(x) for x in lst]
             if got != m.table.get(sid, []) and m.state.get(sid) != "ambiguous":
                 self.bad("handler-order", "subscribed", "table for id %r: expected %r real %r" % (
@@ -611,6 +675,8 @@ def job(a):
     seed = int(env.get("seed", 0))
     depth = a["depth"]
     first, second = a["first"], a["second"]
+    global _REG
+    _REG = bool(a.get("reg"))
     stats = collections.Counter()
     viol, persig = [], {}
     evals = 0
@@ -624,7 +690,7 @@ def job(a):
                 viol.append({"sig": sig,
                              "desc": "[fw=%s] history=%s event=%s: %s" % (env.get("fw"), history, ev, v[2]),
                              "replay": {"env": {"fw": env.get("fw"), "nvx": "1"}, "func": "props.c11:replay",
-                                        "arg": {"history": history + [ev]}}})
+                                        "arg": {"history": history + [ev], "reg": _REG}}})
             else:
                 stats["violations_not_listed"] += 1
 
@@ -640,6 +706,9 @@ def job(a):
             return bool(a.get("root"))
         return len(h) >= 2 if second is not None else len(h) == 1
     w0 = World(seed)
+    if w0.setup_problem:
+        report([], ["setup"], [("callee-setup", "registered", w0.setup_problem)])
+        return {"evals": 1, "viol": viol, "stats": dict(stats), "samples": samples}
     seen = {w0.digest()}
     frontier = [[]]
     if a.get("root"):
@@ -675,6 +744,8 @@ def job(a):
                 evals += 1
                 if own_t:
                     stats["transitions"] += 1
+                    if _REG:
+                        stats["callee_variant_transitions"] += 1
                 if w.viol:
                     report(h, ev, w.viol)
                     continue
@@ -695,6 +766,8 @@ def replay(a):
     from mc import worker
     from harness import wamp_l1 as H
     seed = int(worker.ENV.get("seed", 0))
+    global _REG
+    _REG = bool(a.get("reg"))
     w = World(seed)
     trace = []
     for ev in a["history"]:
@@ -723,7 +796,10 @@ MANIFEST = {
             "published args/kwargs plus details only where requested (and the handler's own "
             "Subscription in them), raising handler reported to onUserError without harming the others, "
             "no invocation after unsubscribe, UNSUBSCRIBE sent exactly when the last handler goes, "
-            "racing events dropped silently, never-held id raises ProtocolError.",
+            "racing events dropped silently, never-held id raises ProtocolError. Also: unsubscribe of an "
+            "older handler issued from the callback of subscribe() (inside SUBSCRIBED processing on Twisted), "
+            "and a callee variant (depth -2) in which the session holds registrations whose ids equal a "
+            "subscription id / are held as registration only (an EVENT for such an id is a violation).",
     "note": "Trusted: ref/wamp_session.py SubscriptionModel, harness/wamp_l1.py. The harness reads "
             "session._subscriptions only to locate Subscription objects of decorated handlers and to "
             "compare table order. Latitude documented in ASSUMPTIONS (handler removed before its turn, "
